@@ -74,6 +74,38 @@ func convCompFuncV1ToV2(cf *ugo.CompiledFunction, opWidth []int) error {
 		return nil
 	}
 
+	// Widening an operand moves every instruction behind it. First pass:
+	// newPos[i] is the new offset of the old offset i, that is i shifted by the
+	// widenings of all instructions that end at or before i.
+	newPos := make([]int, len(cf.Instructions)+1)
+	var shift int
+	for i := 0; i < len(cf.Instructions); {
+		op := cf.Instructions[i]
+		w := opWidth[op]
+
+		for j := i; j <= i+w && j < len(cf.Instructions); j++ {
+			newPos[j] = j + shift
+		}
+
+		switch op {
+		case opv1.OpJump, opv1.OpJumpFalsy, opv1.OpAndJump, opv1.OpOrJump, opv1.OpSetupTry:
+			for _, width := range ugo.OpcodeOperands[op] {
+				shift += width
+			}
+			shift -= w
+		}
+
+		i += 1 + w
+	}
+	newPos[len(cf.Instructions)] = len(cf.Instructions) + shift
+
+	relocate := func(pos int) int {
+		if pos < len(newPos) {
+			return newPos[pos]
+		}
+		return pos + shift
+	}
+
 	var newInsts []byte
 	newSrcMap := make(map[int]int, len(cf.SourceMap))
 	operands := make([]int, 0, 4)
@@ -96,6 +128,14 @@ func convCompFuncV1ToV2(cf *ugo.CompiledFunction, opWidth []int) error {
 				cf.Instructions[i+1:],
 				operands[:0],
 			)
+
+			// Second pass: jump and try targets are absolute positions.
+			// An absent catch or finally position of SetupTry stays 0.
+			for j, pos := range operands {
+				if op != opv1.OpSetupTry || pos != 0 {
+					operands[j] = relocate(pos)
+				}
+			}
 
 			var err error
 			instBuf, err = ugo.MakeInstruction(instBuf[:0], op, operands...)
